@@ -22,6 +22,7 @@ import GitAiModel.Driver.Wrapper
 import GitAiModel.Driver.HookMode
 import GitAiModel.Driver.SquashNote
 import GitAiModel.Driver.LineStep
+import GitAiModel.Driver.Snapshot
 namespace GitAi.Driver
 open Lean
 
@@ -45,7 +46,8 @@ def handlers : List (String → Json → Option (Except String Json)) := [
   ConcD.handle,
   WrapperD.handle,
   HookModeD.handle,
-  SquashNoteD.handle
+  SquashNoteD.handle,
+  SnapshotD.handle
 ]
 
 end GitAi.Driver
